@@ -45,6 +45,27 @@ CLAIMS = {
             "Trusts the exact peak computation (ends + integers around the vertex; equals the tick loop for "
             "T <= 4096, asserted).",
             "DESIGN.md §3.1, §4 C17"),
+    "C04": ("Hypothesis stateful (RuleBasedStateMachine) over call histories with injected faults + exhaustive "
+            "method x fault x method grid; history invariants checked after every step against a scripted "
+            "fake serial port",
+            "Model-based generation of call histories on EBBMotionWrap (connect variants, disconnect, all 32 "
+            "request methods, a fault armed at any I/O operation) with three invariants after every step: the "
+            "first error is never replaced; a blocked request writes nothing, does not raise and returns its "
+            "documented failure value; nothing is written after the error is recorded inside a call. The grid "
+            "part is complete for fixed sample arguments. Found one defect on the pinned tree (repaired).",
+            "The fake port observes every byte handed to write(); failure values are taken from the docstrings; "
+            "real serial timing is not modelled.",
+            "DESIGN.md §3.2, §4 C04, §5 F6"),
+    "C05": ("Hypothesis property tests + exhaustive grids against an independent reference of the documented "
+            "framing; per-method fault injection at every I/O operation; attribution sequences on a "
+            "token-issuing simulated device; atheris byte-level fuzzing of the framing in the thorough tier",
+            "Generated-input and fault search: request strings x reply streams decided by a reference written "
+            "from the statement; every request method faulted at each of its reads/writes with every fault "
+            "kind; request sequences with up to 25 empty reads per reply checked for attribution. Found three "
+            "root causes on the pinned tree (repaired).",
+            "Replies are ASCII lines; three documented leniencies (R/RB/BL exception swallowing, "
+            "reboot/bootload not recording err, query_statusbyte single read) are not asserted against.",
+            "DESIGN.md §3.2, §4 C05, §5 F3 F4 F5"),
 }
 
 NOT_YET = "check not built yet in this session (planned in DESIGN.md §4); not claimed until it runs green"
